@@ -2,6 +2,7 @@ package recordcleaner
 
 import (
 	"os"
+	"regexp"
 	"time"
 
 	"github.com/bluenviron/mediamtx/internal/conf"
@@ -18,7 +19,7 @@ func verifExists(p string) bool {
 	return err == nil
 }
 
-// VerifCleanerDeletesOnlyExpired: one pass over a directory with three segments of the path,
+// VerifCleanerDeletesOnlyExpired: one pass (doRun) over a directory with three segments of the path,
 // a segment of another path, a foreign file and a look-alike name; arbitrary clock and retention.
 func VerifCleanerDeletesOnlyExpired() {
 	time.Local = time.UTC
@@ -49,8 +50,20 @@ func VerifCleanerDeletesOnlyExpired() {
 	vnd.Assume(keepSec >= 0 && keepSec <= 20000)
 	pconf := &conf.Path{Name: "cam", RecordPath: dir + "/%path/%Y-%m-%d_%H-%M-%S-%f", RecordFormat: conf.RecordFormatFMP4,
 		RecordDeleteAfter: conf.Duration(time.Duration(keepSec) * time.Second)}
-	c := &Cleaner{PathConfs: map[string]*conf.Path{"cam": pconf}, Parent: verifLog{}}
-	c.processPath(time.Unix(nowSec, 0), "cam") //nolint:errcheck
+	confs := map[string]*conf.Path{"cam": pconf}
+	// optionally a catch-all configuration with its own retention writes to the same directory layout:
+	// 'cam' (resolved to its own configuration) and 'other' (resolved to the catch-all) share the tree
+	othersKeep := int64(-1)
+	if vnd.Bool("catchAllConfigured") {
+		othersKeep = vnd.Int64("catchAllDeleteAfterSeconds")
+		vnd.Assume(othersKeep >= 0 && othersKeep <= 20000)
+		confs["all_others"] = &conf.Path{Name: "all_others", Regexp: regexp.MustCompile("^.*$"), RecordPath: pconf.RecordPath, RecordFormat: conf.RecordFormatFMP4,
+			RecordDeleteAfter: conf.Duration(time.Duration(othersKeep) * time.Second)}
+	}
+	c := &Cleaner{PathConfs: confs, Parent: verifLog{}}
+	timeNow = func() time.Time { return time.Unix(nowSec, 0) }
+	defer func() { timeNow = time.Now }()
+	c.doRun() // one pass of the cleaner
 
 	for i, s := range segs {
 		gone := !verifExists(s)
@@ -61,8 +74,12 @@ func VerifCleanerDeletesOnlyExpired() {
 			vnd.Assert(gone, "every expired segment is deleted on the pass")
 		}
 	}
-	for _, f := range others {
-		vnd.Assert(verifExists(f), "files that are not segments of the path are never deleted")
+	// the other path's segment (same start as the first one) follows the catch-all's retention, if there is one
+	if !verifExists(others[0]) {
+		vnd.Assert(othersKeep > 0 && starts[0] <= nowSec-othersKeep, "a segment of another path is deleted only under that path's own configuration and retention")
+	}
+	for _, f := range others[1:] {
+		vnd.Assert(verifExists(f), "files that are not segments are never deleted")
 	}
 	vnd.Cover(!verifExists(segs[0]) && verifExists(segs[2]), "oldest deleted, newest kept")
 	vnd.Cover(keepSec == 0, "retention disabled")
